@@ -9,10 +9,16 @@ sub-multiset for smoothers, observed part unchanged, hold-out partition / counts
 from harness import prep_common as P
 
 RULE = ("per operation (3 generators, 6 smoothers, initial plate, combination filter, 2 hold-outs): random screens with duplicate "
-        "conditions, single-agent rows (control by name and by dose), observed and unobserved plates of assorted sizes "
-        "(one-sample-per-plate designs, plates cutting across samples, one lumped plate, fully observed), mostly distinct "
-        "observation values, random parameters incl. boundary/invalid ones (fractions 0, 1, <0, >1; sizes 0, negative), "
-        "superset mappings for hold-outs; numpy seed recorded per case. Non-trivial: operation returned, >=4 rows, >=2 unobserved plates.")
+        "conditions, single-agent rows (control by name and by dose), vehicle-only rows (EVERY treatment is the control), arity 1-3, "
+        "observed and unobserved plates of assorted sizes (one-sample-per-plate designs, plates cutting across samples, one lumped plate, "
+        "fully observed), mostly distinct observation values, random parameters incl. boundary/invalid ones (fractions 0, 1, <0, >1; "
+        "sizes 0, negative), superset mappings for hold-outs; PLUS directed families (evidence distribution `directed.*`, clause hit "
+        "counts `clause.*`): hold-outs on plates of 12-30 rows with 13 fractions (every plate has ceil(fraction x size) >= 2: a draw "
+        "with replacement yields too few rows; the per-plate count oracle is exact), vehicle-only + duplicated conditions through every "
+        "operation at arity 2/3, >= 11 generated plates (gen-seg / gen-pair / gen-perm), pairwise at arity 3 and 1, odd plate counts "
+        "3,5,6,7,11 with 1-4 top-bottom iterations, min-merge sums exactly at limit / limit+1, optimal-size ties, several samples below "
+        "the per-sample minimum; numpy seed recorded per case. The oracles read the INPUT from the raw case description (not from a "
+        "batchie Screen). Non-trivial: operation returned, >=4 rows, >=2 unobserved plates.")
 
 
 def run(ctx, res):
